@@ -29,8 +29,9 @@ type Origin struct {
 	mu     sync.Mutex
 	reqs   []*Req
 	run    int
-	Assets int // assets per page
-	Links  int // absolute <a href> outlinks per /p page (0 = none)
+	Assets int           // assets per page
+	Links  int           // absolute <a href> outlinks per /p page (0 = none)
+	Delay  time.Duration // every answer is delayed by this much (a slow site: seeds stay in flight longer)
 	// stall: when the K-th request reaches Phase ("arrival" | "midbody" | "complete") Event is signalled and the
 	// handler waits for Release (or 15 s)
 	StallK     int
@@ -62,7 +63,7 @@ func NewOrigin(ip string, assets int) (*Origin, error) {
 	return o, nil
 }
 
-func (o *Origin) Addr() string { return o.ln.Addr().String() }
+func (o *Origin) Addr() string           { return o.ln.Addr().String() }
 func (o *Origin) URL(path string) string { return "http://" + o.Addr() + path }
 func (o *Origin) Close()                 { o.srv.Close() }
 func (o *Origin) SetRun(n int)           { o.mu.Lock(); o.run = n; o.mu.Unlock() }
@@ -111,6 +112,9 @@ func (o *Origin) handle(w http.ResponseWriter, r *http.Request) {
 		}
 		w.WriteHeader(200)
 		return
+	}
+	if o.Delay > 0 {
+		time.Sleep(o.Delay)
 	}
 	o.mu.Lock()
 	rq := &Req{N: len(o.reqs) + 1, Run: o.run, Path: r.URL.Path, At: time.Since(o.t0).Milliseconds()}
